@@ -4,7 +4,7 @@ from props.opt_common import *
 
 class C04(OptCheck):
     prop = "C04"
-    vfiles = ["Properties/Properties_C04.v"]
+    vfiles = ["Properties/Properties_C04.v", "Tie/Tie_C04.v"]
     corpus = "C04.txt"
     oracle_args = ("oracle", "C04")
     design_ref = "DESIGN.md section 6, C04"
